@@ -1007,8 +1007,18 @@ def check_cases(ctx, eng, cases, cov, dist, distinct, rng):
         recs.append((c, origin, o1, o2, order2, uses))
     text = "".join(eng.case_line(c, use=list(u.keys())) + "\n" for c, _, _, _, _, u in recs)
     text2 = "".join(eng.case_line(c, order=o2l) + "\n" for c, _, _, _, o2l, _ in recs)
-    mlines = ctx.model("mod", text, args=eng.margs)
-    mlines2 = ctx.model("mod", text2, args=eng.margs)
+    # the model is run with list_sort as its POINTER LOOP (`cursor`: Mod/SortCursor.lean, cursors ppPrev / pp / ppPos) --
+    # that form is compared with pdsh below -- and as `listSort`; the two are equal by `loader_runs_pointer_loop`
+    cargs = list(eng.margs) + ([] if "nosameobj" in eng.margs else ["cursor"])
+    mlines = ctx.model("mod", text, args=cargs)
+    mlines2 = ctx.model("mod", text2, args=cargs)
+    if cargs != list(eng.margs):
+        for t_, ml_ in ((text, mlines), (text2, mlines2)):
+            for k_, (x_, y_) in enumerate(zip(ml_, ctx.model("mod", t_, args=eng.margs))):
+                if x_ != y_:
+                    ctx.disagreement("mod model: list_sort as pointer loop vs listSort", "%s vs %s" % (x_, y_),
+                                     {"case": {k: v for k, v in recs[k_][0].items() if not k.startswith("_")}})
+        dist["sort_as_pointer_loop"] = dist.get("sort_as_pointer_loop", 0) + 2 * len(recs)
     stext = "".join(eng.case_line(c, use=list(u.keys()), spec=True) + obs_tokens(o1, u) + "\n" for c, _, o1, _, _, u in recs)
     slines = ctx.model("mod", stext, args=["spec"])
     stext2 = "".join(eng.case_line(c, order=o2l, spec=True) + obs_tokens(o2, {}) + "\n" for c, _, _, o2, o2l, _ in recs)
